@@ -259,3 +259,16 @@ def same_status(a, b):
     if set(a) != set(b):
         return False
     return all(a[k] is b[k] or (not isinstance(a[k], SBool) and not isinstance(b[k], SBool) and a[k] == b[k]) for k in a)
+
+
+def as_real(e):
+    """kind-agnostic numeric observation (an int 3 and a float 3.0 are the same observation)"""
+    if isinstance(e, SNum):
+        return SNum(z3.ToReal(e.t)) if e.isint else SNum(e.t)
+    if isinstance(e, SBool):
+        return SNum(z3.ToReal(core.zint(e)))
+    if isinstance(e, (bool, int, float)):
+        return Fraction(e)
+    if isinstance(e, (_np.integer, _np.floating, _np.bool_)):
+        return Fraction(e.item())
+    return e
